@@ -1642,7 +1642,7 @@ func buildExtensionObjects(rawLines []string, cleanLines []string, lineIndex int
 				if reflect.TypeOf((*stack)[stackIndex]).Kind() == reflect.Map {
 					(*stack)[stackIndex].(map[string]interface{})[key] = value
 				}
-				if lineIndex < len(rawLines)-1 && !rxAllowedExtensions.MatchString(cleanLines[lineIndex+1]) {
+				if lineIndex < len(rawLines)-1 && lineIndex < len(cleanLines)-1 && !rxAllowedExtensions.MatchString(cleanLines[lineIndex+1]) {
 					stack.walkBack(rawLines, lineIndex)
 				}
 			}
@@ -1654,7 +1654,7 @@ func buildExtensionObjects(rawLines []string, cleanLines []string, lineIndex int
 		list := (*stack)[stackIndex].(*[]string)
 		*list = append(*list, key)
 		(*stack)[stackIndex] = list
-		if lineIndex < len(rawLines)-1 && !rxAllowedExtensions.MatchString(cleanLines[lineIndex+1]) {
+		if lineIndex < len(rawLines)-1 && lineIndex < len(cleanLines)-1 && !rxAllowedExtensions.MatchString(cleanLines[lineIndex+1]) {
 			stack.walkBack(rawLines, lineIndex)
 		}
 		buildExtensionObjects(rawLines, cleanLines, lineIndex+1, extObjs, stack)
